@@ -1,6 +1,3 @@
-//@unit vals_tail
-//@serves C01 C02 C06 C07 C08 C09 C13
-//@backend verus
 // bbiwrite::write_vals and bbiwrite::write_vals_no_zoom, WHOLE, as the complement of the existing carves: the pieces
 // that other units put under contract are replaced by logged shims, every OTHER statement is verified as written:
 //   zoom size list (chrom_ids `zoomlist/*`)                -> `single_pass_zoom_sizes(options)`
@@ -56,41 +53,56 @@ impl IdMap {
     pub fn default() -> (r: IdMap) ensures r == empty_ids() { unimplemented!() }
 }
 
-//@extract struct bigtools/src/bbi.rs Summary
-//@rule R8
-//@end
-//@extract enum bigtools/src/bbi/bbiwrite.rs InputSortType
-//@rule R8
-//@end
-//@extract struct bigtools/src/bbi/bbiwrite.rs BBIWriteOptions
-//@rule R8
-//@sub /#\[derive\(Clone\)\]\n/ => ""
-//@end
-//@extract enum bigtools/src/bbi/bbiwrite.rs ProcessDataError
-//@rule R8
-//@sub /[ \t]*#\[error\([^\n]*\)\]\n/ => "" min=0
-//@sub /#\[from\] io::Error/ => IoErr min=0
-//@end
-//@extract enum bigtools/src/bbi/bbiwrite.rs BBIProcessError
-//@rule R8
-//@sub /[ \t]*#\[error\([^\n]*\)\]\n/ => "" min=0
-//@sub /#\[from\] io::Error/ => IoErr min=0
-//@sub /<SourceError: Error>/ => "" min=1
-//@sub /SourceError\(SourceError\)/ => SourceError(SrcErr) min=1
-//@end
+#[derive(Copy, Clone)]
+pub struct Summary {
+    pub total_items: u64,
+    pub bases_covered: u64,
+    pub min_val: f64,
+    pub max_val: f64,
+    pub sum: f64,
+    pub sum_squares: f64,
+}
+#[derive(Copy, Clone)]
+pub enum InputSortType {
+    ALL,
+    START,
+    // TODO
+    //NONE,
+}
+pub struct BBIWriteOptions {
+    pub compress: bool,
+    pub items_per_slot: u32,
+    pub block_size: u32,
+    pub initial_zoom_size: u32,
+    pub max_zooms: u32,
+    pub manual_zoom_sizes: Option<Vec<u32>>,
+    pub input_sort_type: InputSortType,
+    pub channel_size: usize,
+    pub inmemory: bool,
+}
+pub enum ProcessDataError {
+    InvalidInput(String),
+    InvalidChromosome(String),
+    IoError(IoErr),
+}
+pub enum BBIProcessError {
+    InvalidInput(String),
+    InvalidChromosome(String),
+    IoError(IoErr),
+    SourceError(SrcErr),
+}
 /// the repository's `From<ProcessDataError> for BBIProcessError` behind `?`: converted value not modelled
 impl From<ProcessDataError> for BBIProcessError { #[verifier::external_body] fn from(value: ProcessDataError) -> BBIProcessError { unimplemented!() } }
-//@extract struct bigtools/src/bbi/bbiwrite.rs ZoomInfo
-//@rule R8
-//@sub /TempFileBuffer<File>/ => LevelBuf min=1
-//@sub /Flatten<vec::IntoIter<crossbeam_channel::IntoIter<Section>>>/ => SecStream min=1
-//@end
-//@extract type bigtools/src/bbi/bbiwrite.rs ZoomValue
-//@rule R8
-//@sub /crossbeam_channel::IntoIter<Section>/ => SecIter
-//@sub /TempFileBuffer<File>/ => LevelBuf
-//@sub /TempFileBufferWriter<File>/ => ZoomWriter
-//@end
+pub struct ZoomInfo {
+    pub resolution: u32,
+    pub data: LevelBuf,
+    pub sections: SecStream,
+}
+pub type ZoomValue = (
+    Vec<SecIter>,
+    LevelBuf,
+    Option<ZoomWriter>,
+);
 
 /// BTreeMap<u32, ZoomValue>: ghost `kv()` = its entries in KEY ORDER (what `into_iter()` yields, ASSUMED std)
 #[verifier::external_body] pub struct ZMap { _p: u8 }
@@ -182,14 +194,14 @@ impl Runtime {
     #[verifier::external_body]
     pub fn block_on(&self, t: WriteTask, log: &ChanLog<Data>) -> (r: Joined)
         requires
-            [[L: order/the_sender_is_dropped_before_the_writer_task_is_awaited]]
+            
             log.closed(t.fut().rx()) is Some,
         ensures r.res == wt_result(t.fut().file(), t.fut().zooms(), log.closed(t.fut().rx())->Some_0),
     { unimplemented!() }
     #[verifier::external_body]
     pub fn block_on0(&self, t: WriteTask0, log: &ChanLog<DataWithoutzooms>) -> (r: Joined0)
         requires
-            [[L: order/no_zoom_the_sender_is_dropped_before_the_writer_task_is_awaited]]
+            
             log.closed(t.fut().rx()) is Some,
         ensures r.res == wt0_result(t.fut().file(), log.closed(t.fut().rx())->Some_0),
     { unimplemented!() }
@@ -244,11 +256,11 @@ impl Vals {
     pub fn process_to_bbi_vals(&mut self, runtime: &Runtime, chrom_sizes: &StrMap, chrom_ids: &mut IdMap, send: &mut ChromTx<Data>,
             options: &BBIWriteOptions, zoom_sizes: &Vec<u32>, summary: &mut Option<Summary>) -> (r: Result<(), BBIProcessError>)
         requires
-            [[L: pass/starts_from_the_empty_id_map]]
+            
             *old(chrom_ids) == empty_ids(),
-            [[L: pass/starts_without_a_summary]]
+            
             *old(summary) is None,
-            [[L: pass/starts_with_an_empty_channel]]
+            
             old(send).sent().len() == 0,
         ensures
             final(send).cid() == old(send).cid(),
@@ -260,11 +272,11 @@ impl Vals {
     pub fn process_to_bbi_no_zoom(&mut self, runtime: &Runtime, chrom_sizes: &StrMap, chrom_ids: &mut IdMap, send: &mut ChromTx<DataWithoutzooms>,
             options: &BBIWriteOptions, summary: &mut Option<Summary>, total_zoom_counts: &mut CountMap) -> (r: Result<(), BBIProcessError>)
         requires
-            [[L: pass/no_zoom_starts_from_the_empty_id_map]]
+            
             *old(chrom_ids) == empty_ids(),
-            [[L: pass/no_zoom_starts_without_a_summary]]
+            
             *old(summary) is None,
-            [[L: pass/no_zoom_starts_with_an_empty_channel]]
+            
             old(send).sent().len() == 0,
         ensures
             final(send).cid() == old(send).cid(),
@@ -311,60 +323,73 @@ pub open spec fn writers_dropped(d: DropLog, kv: Seq<(u32, ZoomValue)>, n: int) 
 // write_vals
 // =====================================================================================
 #[verifier::loop_isolation(false)]
-//@extract fn bigtools/src/bbi/bbiwrite.rs write_vals
-//@presub /\Apub\(crate\) fn write_vals<.*?\n> \{\n/ => pub fn write_vals(mut vals_iter: Vals, file: OutFile, options: &BBIWriteOptions, runtime: Runtime, chrom_sizes: &StrMap) -> Result<(IdMap, Summary, OutFile, SecStream, Vec<ZoomInfo>, usize), BBIProcessError> {\n min=1 count=1
-//@presub /    let make_zoom = \|size\| \{\n.*?\n    \};\n/ => "" min=1 count=1
-//@presub /    let (?:mut )?zoom_sizes(?:: Vec<u32>)? = match &options\.manual_zoom_sizes \{.*?\n(    let zooms_map\b)/ =>     let zoom_sizes: Vec<u32> = single_pass_zoom_sizes(options);\n\1 min=1 count=1
-//@presub /zoom_sizes\.iter\(\)\.copied\(\)\.map\(make_zoom\)\.collect\(\)/ => collect_zooms_map(&zoom_sizes, options) min=1 count=1
-//@presub /\n    fn setup_chrom<.*?\n    \}\n/ => \n min=1 count=1
-//@presub /    let mut do_read = \|chrom: String\|[^\n]*\{\n.*?\n    \};\n/ => "" min=1 count=1
-//@presub /    let mut advance = \|p: P\| \{\n.*?\n    \};\n/ => "" min=1 count=1
-//@presub /vals_iter\.process_to_bbi\(&runtime, &mut do_read, &mut advance\)/ => vals_iter.process_to_bbi_vals(&runtime, chrom_sizes, &mut chrom_ids, &mut send, options, &zoom_sizes, &mut summary) min=1 count=1
-//@sub /BTreeMap<u32, ZoomValue>/ => ZMap min=0
-//@sub /futures_mpsc::unbounded\(\)/ => unbounded() min=0
-//@sub /\bdrop\(send\);/ => chan_log__.sender_dropped(send); min=0
-//@sub /runtime\.block_on\((\w+)\)/ => runtime.block_on(\1, &chan_log__) min=0
-//@sub /\bdrop\(zoom\.2\);/ => drop_log__.writer_dropped(zoom.2); min=0
-//@sub /\bdrop\(/ => vdrop( min=0
-//@sub /(\w+(?:\.\d+)?)\.into_iter\(\)\.flatten\(\)/ => flatten_lists(\1) min=0
-//@sub /zooms_map\s*\.into_iter\(\)((?:\s*\.rev\(\))?)\s*\.map\(\|\(size, zoom\)\| \{\n(.*?)\n        \}\)\s*\.collect\(\);/ => { let mut it__ = zooms_map.into_iter()\1; let mut out__: Vec<ZoomInfo> = Vec::new();\n        loop {\n            let (size, zoom) = match it__.next() { Some(x__) => x__, None => break };\n            let item__ = {\n\2\n            };\n            out__.push(item__);\n        }\n        out__ }; min=0
-//@ret r
-//@sig
+pub fn write_vals(mut vals_iter: Vals, file: OutFile, options: &BBIWriteOptions, runtime: Runtime, chrom_sizes: &StrMap) -> (r: Result<(IdMap, Summary, OutFile, SecStream, Vec<ZoomInfo>, usize), BBIProcessError>)
     ensures
-        [[L: vals/writer_task_error_propagates]]
+        
         r is Ok ==> wt_result(file, zmap0(zlist(*options), *options), pass_out(vals_iter, *chrom_sizes, *options, zlist(*options)).msgs) is Ok,
-        [[L: vals/slot0_ids_are_the_ones_the_pass_built_from_the_empty_map]]
+        
         r matches Ok(t) ==> t.0 == pass_out(vals_iter, *chrom_sizes, *options, zlist(*options)).ids,
-        [[L: vals/slot1_summary_is_the_passes_or_all_zeros_when_there_was_no_chromosome]]
+        
         r matches Ok(t) ==> t.1 == summary_or_zero(pass_out(vals_iter, *chrom_sizes, *options, zlist(*options)).summary),
-        [[L: vals/slot2_file_is_the_one_the_writer_task_returns_for_the_file_handed_in_the_fresh_zoom_map_and_the_messages_of_the_pass]]
+        
         r matches Ok(t) ==> t.2 == wt_result(file, zmap0(zlist(*options), *options), pass_out(vals_iter, *chrom_sizes, *options, zlist(*options)).msgs)->Ok_0.0,
-        [[L: vals/slot3_sections_are_the_writer_tasks_section_lists_flattened_in_order]]
+        
         r matches Ok(t) ==> t.3.lists() == wt_result(file, zmap0(zlist(*options), *options), pass_out(vals_iter, *chrom_sizes, *options, zlist(*options)).msgs)->Ok_0.2@,
-        [[L: vals/slot4_one_zoom_info_per_level_in_resolution_order_with_that_levels_size_staging_file_and_section_lists]]
+        
         r matches Ok(t) ==> infos_of(t.4@, wt_result(file, zmap0(zlist(*options), *options), pass_out(vals_iter, *chrom_sizes, *options, zlist(*options)).msgs)->Ok_0.3.kv()),
-        [[L: vals/slot5_advertised_buffer_is_the_writer_tasks_maximum]]
+        
         r matches Ok(t) ==> t.5 == wt_result(file, zmap0(zlist(*options), *options), pass_out(vals_iter, *chrom_sizes, *options, zlist(*options)).msgs)->Ok_0.1,
-//@open
+{
     let mut chan_log__: ChanLog<Data> = ChanLog::new();
     let mut drop_log__ = DropLog::new();
-//@at /let write_fut = write_chroms_with_zooms\(/ after
-    [[L: vals/wiring/writer_task_gets_the_file_handed_in_the_fresh_zoom_map_and_the_receiving_end_of_the_processors_channel]]
+
+let zoom_sizes: Vec<u32> = single_pass_zoom_sizes(options);
+    let zooms_map: ZMap = collect_zooms_map(&zoom_sizes, options);
+
+    let mut chrom_ids = IdMap::default();
+
+    let mut summary: Option<Summary> = None;
+    let (mut send, recv) = unbounded();
+    let write_fut = write_chroms_with_zooms(file, zooms_map, recv);
+
+    
     assert(write_fut.file() == file && write_fut.zooms() == zmap0(zlist(*options), *options) && write_fut.rx() == send.cid());
-//@loop 1
+    let write_fut_handle = runtime.spawn(write_fut);
+
+
+
+    vals_iter.process_to_bbi_vals(&runtime, chrom_sizes, &mut chrom_ids, &mut send, options, &zoom_sizes, &mut summary)?;
+
+    chan_log__.sender_dropped(send);
+
+    let summary_complete = summary.unwrap_or(Summary {
+        total_items: 0,
+        bases_covered: 0,
+        min_val: 0.0,
+        max_val: 0.0,
+        sum: 0.0,
+        sum_squares: 0.0,
+    });
+
+    let (file, max_uncompressed_buf_size, section_iter, zooms_map) =
+        runtime.block_on(write_fut_handle, &chan_log__).unwrap()?;
+
+
+    let ghost zooms_map_kv__ = zooms_map.kv();
+    let zoom_infos: Vec<ZoomInfo> = { let mut it__ = zooms_map.into_iter(); let mut out__: Vec<ZoomInfo> = Vec::new();
+        loop 
             invariant
-                [[L: vals/zoom_infos/levels_consumed_in_key_order_one_info_each]]
+                
                 out__@.len() + it__.rest().len() == zooms_map_kv__.len(),
                 it__.rest() == zooms_map_kv__.subrange(out__@.len() as int, zooms_map_kv__.len() as int),
                 forall|k: int| 0 <= k < out__@.len() ==> info_of(#[trigger] out__@[k], zooms_map_kv__[k]),
-                [[L: vals/zoom_infos/the_writer_half_of_every_level_so_far_is_dropped]]
+                
                 writers_dropped(drop_log__, zooms_map_kv__, out__@.len() as int),
             decreases
-                [[L: vals/zoom_infos/termination]]
+                
                 it__.rest().len(),
-//@at /let mut it__ = zooms_map\.into_iter\(\)/ before
-    let ghost zooms_map_kv__ = zooms_map.kv();
-//@at /let \(size, zoom\) = match it__\.next\(\)/ before
+{
+
             proof {
                 let a = out__@.len() as int;
                 if a < zooms_map_kv__.len() {
@@ -372,10 +397,32 @@ pub open spec fn writers_dropped(d: DropLog, kv: Seq<(u32, ZoomValue)>, n: int) 
                     assert(zooms_map_kv__.subrange(a, zooms_map_kv__.len() as int).drop_first() =~= zooms_map_kv__.subrange(a + 1, zooms_map_kv__.len() as int));
                 }
             }
-//@at /^\s*Ok\(\(\s*$/ before
-    [[L: vals/every_returned_levels_writer_half_was_dropped]]
+            let (size, zoom) = match it__.next() { Some(x__) => x__, None => break };
+            let item__ = {
+            drop_log__.writer_dropped(zoom.2);
+            let sections = flatten_lists(zoom.0);
+            ZoomInfo {
+                resolution: size,
+                data: zoom.1,
+                sections,
+            }
+            };
+            out__.push(item__);
+        }
+        out__ };
+    let section_iter = flatten_lists(section_iter);
+
+    
     assert(writers_dropped(drop_log__, zooms_map_kv__, zooms_map_kv__.len() as int));
-//@end
+    Ok((
+        chrom_ids,
+        summary_complete,
+        file,
+        section_iter,
+        zoom_infos,
+        max_uncompressed_buf_size,
+    ))
+}
 
 // =====================================================================================
 // write_vals_no_zoom
@@ -399,48 +446,45 @@ pub open spec fn is_count_table(m: Map<u64, u64>) -> bool {
     &&& forall|x: u64| m.dom().contains(x) ==> #[trigger] m[x] == 0
 }
 
-//@extract fn bigtools/src/bbi/bbiwrite.rs write_vals_no_zoom
-//@presub /\Apub\(crate\) fn write_vals_no_zoom<.*?\n> \{\n/ => pub fn write_vals_no_zoom(mut vals_iter: Vals, file: OutFile, options: &BBIWriteOptions, runtime: &Runtime, chrom_sizes: &StrMap) -> Result<(IdMap, Summary, CountMap, OutFile, SecStream, usize), BBIProcessError> {\n min=1 count=1
-//@presub /    let setup_chrom = \|\| \{\n.*?\n    \};\n/ => "" min=1 count=1
-//@presub /    let mut do_read = \|chrom: String\|[^\n]*\{\n.*?\n    \};\n/ => "" min=1 count=1
-//@presub /    let mut advance = \|p: P\| \{\n.*?\n    \};\n/ => "" min=1 count=1
-//@presub /vals_iter\.process_to_bbi\(&runtime, &mut do_read, &mut advance\)/ => vals_iter.process_to_bbi_no_zoom(&runtime, chrom_sizes, &mut chrom_ids, &mut send, options, &mut summary, &mut total_zoom_counts) min=1 count=1
-//@sub /let total_zoom_counts = std::iter::successors\((Some\([^()]*\)), \|z: &u64\| (.*?)\)\s*\.take_while\(\|z\| (.*?)\)\s*\.map\(\|z\| (.*?)\);/ => let total_zoom_counts = { let mut out__: Vec<(u64, u64)> = Vec::new(); let mut next__: Option<u64> = \1;\n        loop {\n            let item__: u64 = match next__ { Some(v__) => v__, None => { break; } };\n            next__ = { let z = &item__; \2 };\n            if !({ let z = &item__; \3 }) { break; }\n            out__.push({ let z = item__; \4 });\n        }\n        out__ }; min=0
-//@sub /BTreeMap<u64, u64> = BTreeMap::from_iter\(/ => CountMap = CountMap::from_iter( min=0
-//@sub /let \(send, recv\) = futures_mpsc::unbounded\(\);/ => let (mut send, recv) = unbounded(); min=0
-//@sub /futures_mpsc::unbounded\(\)/ => unbounded() min=0
-//@sub /runtime\.spawn\(/ => runtime.spawn0( min=0
-//@sub /\bdrop\(send\);/ => chan_log__.sender_dropped(send); min=0
-//@sub /runtime\.block_on\((\w+)\)/ => runtime.block_on0(\1, &chan_log__) min=0
-//@sub /\bdrop\(/ => vdrop( min=0
-//@sub /(\w+(?:\.\d+)?)\.into_iter\(\)\.flatten\(\)/ => flatten_lists(\1) min=0
-//@ret r
-//@sig
+pub fn write_vals_no_zoom(mut vals_iter: Vals, file: OutFile, options: &BBIWriteOptions, runtime: &Runtime, chrom_sizes: &StrMap) -> (r: Result<(IdMap, Summary, CountMap, OutFile, SecStream, usize), BBIProcessError>)
     ensures
-        [[L: no_zoom/writer_task_error_propagates]]
+        
         r is Ok ==> (exists|c0: Map<u64, u64>| is_count_table(c0) && (#[trigger] wt0_result(file, pass_out0(vals_iter, *chrom_sizes, *options, c0).msgs)) is Ok),
-        [[L: no_zoom/every_slot_of_the_returned_tuple_holds_its_own_value_and_the_pass_started_from_the_zero_count_table]]
+        
         r matches Ok(t) ==> (exists|c0: Map<u64, u64>| is_count_table(c0) && ret0_ok(t, file, #[trigger] pass_out0(vals_iter, *chrom_sizes, *options, c0))),
-//@open
+{
     let mut chan_log__: ChanLog<DataWithoutzooms> = ChanLog::new();
-//@loop 1
+
+    let total_zoom_counts = { let mut out__: Vec<(u64, u64)> = Vec::new(); let mut next__: Option<u64> = Some(10);
+        loop 
             invariant
-                [[L: no_zoom/table/next_candidate_is_10_times_4_pow_n_saturated]]
+                
                 next__ matches Some(v) && v as int == (if res_at(out__@.len()) <= u64::MAX { res_at(out__@.len()) } else { u64::MAX as int }),
-                [[L: no_zoom/table/entries_so_far_are_the_resolutions_below_u64_max_with_count_zero]]
+                
                 forall|k: int| 0 <= k < out__@.len() ==> (#[trigger] out__@[k]).0 as int == res_at(k as nat) && out__@[k].1 == 0 && res_at(k as nat) < u64::MAX,
             ensures
-                [[L: no_zoom/table/stops_only_at_the_first_resolution_that_saturates]]
+                
                 res_at(out__@.len()) >= u64::MAX,
             decreases
-                [[L: no_zoom/table/termination]]
+                
                 u64::MAX - next__->Some_0,
-//@at /let item__: u64 = match next__/ after
+{
+            let item__: u64 = match next__ { Some(v__) => v__, None => { break; } };
+
             proof { lemma_res_mono(0, out__@.len()); }
-//@at /let mut chrom_ids = IdMap::default\(\);/ before
+            next__ = { let z = &item__; Some((*z).saturating_mul(4)) };
+            if !({ let z = &item__; *z < u64::MAX }) { break; }
+            out__.push({ let z = item__; (z, 0) });
+        }
+        out__ };
+
+    let ghost total_zoom_counts_list__ = total_zoom_counts@;
+    let mut total_zoom_counts: CountMap = CountMap::from_iter(total_zoom_counts);
+
+
     proof {
         let v = total_zoom_counts_list__;
-        [[L: no_zoom/table/is_exactly_the_resolutions_10_times_4_pow_k_below_u64_max_all_zero]]
+        
         assert(is_count_table(total_zoom_counts@)) by {
             assert forall|a: int, b: int| 0 <= a < b < v.len() implies v[a].0 != v[b].0 by { lemma_res_mono(a as nat, b as nat); }
             assert forall|x: u64| total_zoom_counts@.dom().contains(x) <==> (exists|k: nat| res_at(k) == x as int && res_at(k) < u64::MAX) by {
@@ -461,14 +505,46 @@ pub open spec fn is_count_table(m: Map<u64, u64>) -> bool {
         }
     }
     let ghost c0__ = total_zoom_counts@;
-//@at /let mut total_zoom_counts: CountMap = / before
-    let ghost total_zoom_counts_list__ = total_zoom_counts@;
-//@at /let write_fut = write_chroms_without_zooms\(/ after
-    [[L: no_zoom/wiring/writer_task_gets_the_file_handed_in_and_the_receiving_end_of_the_processors_channel]]
+    let mut chrom_ids = IdMap::default();
+
+    let mut summary: Option<Summary> = None;
+    let (mut send, recv) = unbounded();
+    let write_fut = write_chroms_without_zooms(file, recv);
+
+    
     assert(write_fut.file() == file && write_fut.rx() == send.cid());
-//@at /^\s*Ok\(\(\s*$/ before
+    let write_fut_handle = runtime.spawn0(write_fut);
+
+
+
+    vals_iter.process_to_bbi_no_zoom(&runtime, chrom_sizes, &mut chrom_ids, &mut send, options, &mut summary, &mut total_zoom_counts)?;
+
+    chan_log__.sender_dropped(send);
+
+    let summary_complete = summary.unwrap_or(Summary {
+        total_items: 0,
+        bases_covered: 0,
+        min_val: 0.0,
+        max_val: 0.0,
+        sum: 0.0,
+        sum_squares: 0.0,
+    });
+
+    let (file, max_uncompressed_buf_size, section_iter) =
+        runtime.block_on0(write_fut_handle, &chan_log__).unwrap()?;
+
+    let section_iter = flatten_lists(section_iter);
+
     proof { assert(is_count_table(c0__)); }
-//@end
+    Ok((
+        chrom_ids,
+        summary_complete,
+        total_zoom_counts,
+        file,
+        section_iter,
+        max_uncompressed_buf_size,
+    ))
+}
 /// every component of write_vals_no_zoom's result in its slot
 pub open spec fn ret0_ok(t: (IdMap, Summary, CountMap, OutFile, SecStream, usize), file: OutFile, p: PassOut0) -> bool {
     &&& t.0 == p.ids
@@ -479,38 +555,51 @@ pub open spec fn ret0_ok(t: (IdMap, Summary, CountMap, OutFile, SecStream, usize
 
 // ---- the zoom-count part of write_vals_no_zoom's `advance` (the summary part: unit sum_acc) ----
 #[verifier::loop_isolation(false)]
-//@extract closure bigtools/src/bbi/bbiwrite.rs write_vals_no_zoom advance
-//@header fn advance_zoom_counts(zoom_counts: Vec<(u64, u64)>, total_zoom_counts: &mut CountMap)
-//@rule R5
-//@presub /let data = p\.destroy\(\);\s*let NoZoomsInternalProcessedData\(chrom_summary, zoom_counts\) = data;\n/ => "" min=1
-//@presub /\n        match &mut summary \{\n.*?\n        \}\n/ => \n min=1 count=1
-//@sub /BTreeMap::from_iter\(zoom_counts\.into_iter\(\)\)/ => CountMap::from_iter(zoom_counts) min=0
-//@sub /for zoom_count in total_zoom_counts\.iter_mut\(\) \{/ => let keys__ = total_zoom_counts.keys_vec();\n        proof { kg = keys__@; }\n        let mut i__: usize = 0;\n        while i__ < keys__.len()\n            invariant\n                kg == keys__@, i__ <= keys__@.len(),\n                [[L: counts/loop/same_resolutions_every_key_once]] total_zoom_counts@.dom() =~= t0.dom() && (forall|x: u64| t0.dom().contains(x) <==> keys__@.contains(x)) && (forall|a: int, b: int| 0 <= a < b < keys__@.len() ==> keys__@[a] < keys__@[b]),\n                [[L: counts/loop/resolutions_visited_so_far_are_updated_the_others_untouched]] forall|j: int| 0 <= j < keys__@.len() ==> (#[trigger] total_zoom_counts@[keys__@[j]]) as int == t0[keys__@[j]] as int + (if j < i__ { chrom_count(zc, keys__@[j]) } else { 0 }),\n            decreases\n                [[L: counts/loop/termination]] keys__@.len() - i__,\n        {\n            proof { assert(keys__@.contains(keys__@[i__ as int])); lemma_chrom_count(zc, zoom_count_map@, keys__@[i__ as int]); }\n            let zoom_count = total_zoom_counts.entry_mut(keys__[i__]); i__ = i__ + 1; min=0
-//@sig
+fn advance_zoom_counts(zoom_counts: Vec<(u64, u64)>, total_zoom_counts: &mut CountMap)
     requires
-        [[L: counts/pre_chromosome_reports_every_resolution_at_most_once]]
+        
         forall|a: int, b: int| 0 <= a < b < zoom_counts@.len() ==> zoom_counts@[a].0 != zoom_counts@[b].0,
-        [[L: counts/pre_totals_do_not_overflow]]
+        
         forall|x: u64| old(total_zoom_counts)@.dom().contains(x) ==> (#[trigger] old(total_zoom_counts)@[x]) as int + chrom_count(zoom_counts@, x) <= u64::MAX,
     ensures
-        [[L: counts/same_resolutions]]
+        
         final(total_zoom_counts)@.dom() == old(total_zoom_counts)@.dom(),
-        [[L: counts/every_resolution_gets_the_chromosomes_own_count_or_one_if_it_reports_none]]
+        
         forall|x: u64| old(total_zoom_counts)@.dom().contains(x) ==> (#[trigger] final(total_zoom_counts)@[x]) as int == old(total_zoom_counts)@[x] as int + chrom_count(zoom_counts@, x),
-//@open
+{
     let ghost t0 = total_zoom_counts@;
     let ghost zc = zoom_counts@;
     let ghost mut kg: Seq<u64> = Seq::empty();
-//@close
+
+        
+
+        let zoom_count_map = CountMap::from_iter(zoom_counts);
+        let keys__ = total_zoom_counts.keys_vec();
+        proof { kg = keys__@; }
+        let mut i__: usize = 0;
+        while i__ < keys__.len()
+            invariant
+                kg == keys__@, i__ <= keys__@.len(),
+                 total_zoom_counts@.dom() =~= t0.dom() && (forall|x: u64| t0.dom().contains(x) <==> keys__@.contains(x)) && (forall|a: int, b: int| 0 <= a < b < keys__@.len() ==> keys__@[a] < keys__@[b]),
+                 forall|j: int| 0 <= j < keys__@.len() ==> (#[trigger] total_zoom_counts@[keys__@[j]]) as int == t0[keys__@[j]] as int + (if j < i__ { chrom_count(zc, keys__@[j]) } else { 0 }),
+            decreases
+                 keys__@.len() - i__,
+        {
+            proof { assert(keys__@.contains(keys__@[i__ as int])); lemma_chrom_count(zc, zoom_count_map@, keys__@[i__ as int]); }
+            let zoom_count = total_zoom_counts.entry_mut(keys__[i__]); i__ = i__ + 1;
+            let chrom_zoom_count = zoom_count_map.get(&zoom_count.0).copied().unwrap_or(1);
+            *zoom_count.1 = *zoom_count.1 + (chrom_zoom_count);
+        }
+    
     proof {
-        [[L: counts/every_resolution_was_visited_by_the_fill_loop]]
+        
         assert forall|x: u64| t0.dom().contains(x) implies (#[trigger] total_zoom_counts@[x]) as int == t0[x] as int + chrom_count(zc, x) by {
             assert(kg.contains(x));
             let j = choose|j: int| 0 <= j < kg.len() && kg[j] == x;
             assert(total_zoom_counts@[kg[j]] as int == t0[kg[j]] as int + chrom_count(zc, kg[j]));
         }
     }
-//@end
+}
 /// what chromosome `zc` contributes to resolution x: its own count, or 1 if it reports none
 pub open spec fn chrom_count(zc: Seq<(u64, u64)>, x: u64) -> int {
     if exists|i: int| 0 <= i < zc.len() && (#[trigger] zc[i]).0 == x { zc[choose|i: int| 0 <= i < zc.len() && (#[trigger] zc[i]).0 == x].1 as int } else { 1 }
@@ -529,3 +618,4 @@ pub proof fn lemma_chrom_count(zc: Seq<(u64, u64)>, m: Map<u64, u64>, x: u64)
 
 } // verus!
 fn main() {}
+
